@@ -196,7 +196,10 @@ def h_read_all(ctx, bname, vi, kind, lasts, use_latch, near=False, gap=1):
     image[0] = last
     if has_lock or has_latch:
         image[2] = ctx.fresh("lockbyte", 0, 255)
-        ctx.assume(E.ne(image[2], 0xAA))
+        if not (use_latch and has_latch):
+            # (a bank found latched by someone else is that someone's business when this read does not latch;
+            # a latching read ends unlatched whatever it found)
+            ctx.assume(E.ne(image[2], 0xAA))
     start0 = 2 if number == 0 else 3
     hole_mode = ctx.fresh_bool("with_hole")
     if near:
@@ -242,7 +245,9 @@ def h_read_all(ctx, bname, vi, kind, lasts, use_latch, near=False, gap=1):
         if bank.image[k] is not before[k]:
             ctx.fail("read_all changed location %d" % k, key=tag + "/changed")
     if has_lock or has_latch:
-        if latched:
+        if latched and bool(E.eq(before[2], 0xAA)) and (not bank.implemented(2) or (st == "exc" and not bank.writes)):
+            pass        # (no lock byte in a bank that short / the read failed before it touched the bank)
+        elif latched:
             ctx.prove(E.ne(bank.image[2], 0xAA), "bank left latched after read_all%s"
                       % (" (aborted by %r)" % (r,) if st == "exc" else ""),
                       key=tag + ("/left-latched-after-error" if st == "exc" else "/left-latched"))
